@@ -112,8 +112,57 @@ def cel_panics(res):
     res.coverage["cel_expressions_compiled"] = len(ok_ids)
 
 
+def cel_nil_fields(res):
+    """CEL rules over pointer / interface fields (string(value) on a nil *url.URL or nil fmt.Stringer, a selection through a
+    nil pointer): compiled code only. One struct per rule so that one panic does not hide another."""
+    from synth import T, basic, case, fld, scenario, struct
+    ptr_inner = T("*Inner", "TPointer", "nilable")
+    url_t = T("*url.URL", "TPointer", "nilable")
+    stringer = T("fmt.Stringer", "TInterface", "nilable")
+    i = basic("int")
+    structs = [
+        struct("Sel", [fld("V", ["//govalid:cel=this.P.X > 0 || value > 0"], i), fld("P", [], ptr_inner)],
+               [case([]), case([{"path": "P", "vk": "nilable", "isnil": False}]), case([{"path": "P", "vk": "nilable", "isnil": True}])]),
+        struct("Url", [fld("Endpoint", ["//govalid:cel=string(value).startsWith('https://') || string(value) != ''"], url_t)],
+               [case([]), case([{"path": "Endpoint", "vk": "nilable", "isnil": False}])]),
+        struct("Lbl", [fld("Label", ["//govalid:cel=string(value) != 'x'"], stringer), fld("N", ["//govalid:cel=string(this.Label) != 'y' || value == 0"], i)], [case([])]),
+        struct("Req", [fld("P", ["//govalid:required"], ptr_inner), fld("L", ["//govalid:required"], stringer), fld("U", ["//govalid:required"], url_t)],
+               [case([]), case([{"path": "P", "vk": "nilable", "isnil": False}, {"path": "U", "vk": "nilable", "isnil": False}])]),
+    ]
+    gr = genfam.GenRun(res, {"scenarios": [scenario("c17nil", structs, aux=["type Inner struct{ X int }"], imports=["fmt", "net/url"])]}, "c17nil")
+    if not gr.generate() or gr.gen_status != 0:
+        res.coverage["cel_nil_fields"] = "generation failed (loud): " + getattr(gr, "gen_log", "")[-300:]
+        return
+    gr.translate()
+    ok, errs = gr.go_vet_build()
+    if not ok:
+        res.coverage["cel_nil_fields"] = "does not compile (loud): " + str(errs)[:300]
+        return
+    if gr.drive() is None:
+        raise RuntimeError("driver failed: " + getattr(gr, "drv_error", ""))
+    findings = [f for f in known_findings("C17") if f.get("class") == "cel_nil_pointer_select"]
+    n = 0
+    for key, o in sorted(gr.obs.items()):
+        n += 1
+        hit = [ep for ep in ("V", "VT", "VTC", "VC") if o[ep].startswith("panic:")]
+        if not hit:
+            continue
+        sname = key.split("/")[1]
+        j = int(key.split("/")[2])
+        sc, st = genprop.find_struct(gr, "/".join(key.split("/")[:2]))
+        p_nil = not any(s_.get("path") == "P" and not s_.get("isnil", True) for s_ in st["cases"][j]["sets"])
+        if sname == "Sel" and p_nil and findings and "nil_pointer" in o[hit[0]]:
+            res.known("%s %s: %s" % (findings[0]["id"], findings[0]["class"], findings[0]["what"]))
+            continue
+        res.violation({"kind": "spec-violation", "struct": "/".join(key.split("/")[:2]), "case_index": j, "case": st["cases"][j], "entry_point": hit[0],
+                       "observed": o[hit[0]], "source": genprop.struct_source(gr, "/".join(key.split("/")[:2])),
+                       "what": "Validate panicked on a struct with a CEL / required rule over pointer or interface fields"})
+    res.coverage["cel_nil_field_cases"] = n
+
+
 def check(res):
     cel_panics(res)
+    cel_nil_fields(res)
     corpus = corpora.c17(res.seed, res.tier)
     gr, results = genprop.run(res, "C17", PROPFILE, corpus,
                               extra=lambda gr, r: res.coverage.__setitem__("lattice_cases", panics_in(res, gr, "Validate panicked on this value")))
